@@ -184,6 +184,19 @@ def run_shard(shard: dict, ctx, res, only=None) -> None:
                           dm=dm_pos, dm_field=b.dm)
 
             guard("FilReader.read_dedisp_block", [start, n_eff], f_rdb)
+
+            def f_rdbn(start=start, n_eff=n_eff):
+                # opposite DM sign: delays <= 0, the rows read start before `start`
+                d = np.asarray(H.get_dmdelays(-dm_pos))
+                s2 = max(start, -int(d.min()))
+                n_ok = min(n_eff, N - s2)
+                if d.max() > 0 or n_ok < 1:
+                    return
+                b = fil.read_dedisp_block(s2, n_ok, -dm_pos)
+                chk.check("FilReader.read_dedisp_block(negative delays)", [s2, n_ok], b.header, shape=(b.data.shape[1], b.data.shape[0]), src=allc, start=s2,
+                          dm=-dm_pos, dm_field=b.dm)
+
+            guard("FilReader.read_dedisp_block(negative delays)", [start, n_eff], f_rdbn)
         # TimeSeries products
         ts0 = fil.collapse(**kw)
         for fac in (1, 2, 3, 5):
